@@ -30,6 +30,8 @@ pub struct SemOpts {
   pub int_is_also_float: bool,
   /// JSON mode: record (taint) every decision that depends on whether an integral number is an int or a float
   pub json: bool,
+  /// ignore cuts in maps (used where only 'every pair is accounted for by some member' is asserted)
+  pub ignore_cuts: bool,
 }
 
 pub struct Sem<'s> {
@@ -763,7 +765,7 @@ impl<'s, 'a> Eval<'s, 'a> {
           if km && !cut_seen && self.ty(s.ty, s.env, v)? {
             c.push(j);
           }
-          if km && matches!(s.key, Key::Bare(_) | Key::Val(_) | Key::Arrow { cut: true, .. }) {
+          if km && !self.sem.opts.ignore_cuts && matches!(s.key, Key::Bare(_) | Key::Val(_) | Key::Arrow { cut: true, .. }) {
             cut_seen = true;
           }
         }
@@ -836,7 +838,7 @@ pub fn prelude_matches(p: &str, v: &CVal, o: &SemOpts) -> bool {
 /// JSON reading: integral JSON numbers are integers; when the evaluation had to decide whether such a
 /// number is (also) a float - which the property leaves open - the verdict is None (ambiguous).
 pub fn accepts_json(schema: &Schema, v: &CVal) -> (Option<Verdict>, u32) {
-  let a = Sem::new(schema, SemOpts { int_is_also_float: false, json: true });
+  let a = Sem::new(schema, SemOpts { int_is_also_float: false, json: true, ignore_cuts: false });
   let va = a.accepts(v);
   let tr = a.trace.get();
   if a.taint.get() {
